@@ -292,7 +292,7 @@ def linecol(text, offset):
 
 
 def gen_world(tape, root, nfiles=1, qualified=False, max_refs=16, boxes=True, wraps=True, alt_multipart=True,
-              vals=False, layout=True, subdirs=False, min_defs=2, spaced_names=True, shadows=False):
+              vals=False, layout=True, subdirs=False, min_defs=2, spaced_names=True, shadows=False, second_ext=None):
     """Draw a world.  Names are globally unique (d<i>, b<i>, u<i>, w<i>)."""
     w = World()
     w.qualified = qualified
@@ -308,7 +308,8 @@ def gen_world(tape, root, nfiles=1, qualified=False, max_refs=16, boxes=True, wr
         sub = ""
         if subdirs and i > 0 and tape.chance(1, 3, "subdir"):
             sub = tape.pick(["sub/", "sub/deep/", "other/"], "subdirname")
-        paths.append(f"{root}/{sub}f{i}.m")
+        # second_ext: files f<odd> belong to a second registered language (another file name pattern)
+        paths.append(f"{root}/{sub}f{i}{second_ext if second_ext and i % 2 == 1 else '.m'}")
     for p in paths:
         w.files[p] = FileEnt(p)
     w.main = paths[0]
